@@ -164,7 +164,7 @@ class C14(Check):
         "top-level required / additionalProperties; pydantic half: annotations int, str, float, bool, Optional[int], List[int], Dict[str,int], "
         "an Enum, a model class, a model class whose validator raises ValueError, unannotated; coerce on / off; argument values from per-type "
         "alphabets of conforming, coercible ('1', 1.0, 'yes') and non-conforming values, passed positionally or by name, incl. unknown names, "
-        "the context name and excluded names. Oracle: executed iff (a twin function binds) and (reference says the explicitly bound arguments "
+        "the context name and excluded names; optionally a second function with the same python name and other annotations, sharing the validator instance, is served first. Oracle: executed iff (a twin function binds) and (reference says the explicitly bound arguments "
         "conform): a 60-line evaluator of exactly the generated schema vocabulary / pydantic.TypeAdapter(annotation) per parameter; refused "
         "=> -32602, JSON text, empty execution log; accepted => the body saw the raw values (jsonschema, coerce off) or the TypeAdapter's "
         "converted values (coerce on), defaults filled; excluded parameters keep their defaults. non-trivial = at least one parameter carries "
@@ -178,7 +178,7 @@ class C14(Check):
     trusted_base = ['pydantic.TypeAdapter', 'reference JSON-schema evaluator in checks/c14.py', 'python call binding']
     required_classes = ['validator/jsonschema', 'validator/pydantic', 'coerce/on', 'coerce/off', 'outcome/executed', 'outcome/refused-by-binding',
                         'outcome/refused-by-validation', 'flavour/func', 'flavour/view', 'ctx/yes', 'excluded/yes', 'attack/excluded-name-supplied',
-                        'converted', 'type/vmodel-rejects', 'passing/positional', 'passing/named', 'dispatcher/async']
+                        'converted', 'type/vmodel-rejects', 'passing/positional', 'passing/named', 'dispatcher/async', 'sibling-same-name-served-first']
 
     def strategy(self, tier: str):
         s_kind = st.sampled_from(['PK', 'PK', 'KO'])
@@ -250,8 +250,14 @@ class C14(Check):
                     top['required'] = [nm for i, nm in enumerate(names) if draw(s_bits) >> i & 1]
                 if draw(st.integers(0, 3)) == 0:
                     top['additionalProperties'] = False
-            return {'dispatcher': draw(st.sampled_from(['sync', 'sync', 'async'])), 'validator': validator, 'flavour': flavour, 'ctx': ctx,
-                    'excluded': excluded, 'coerce': draw(s_bool), 'params': params, 'top': top, 'args': args}
+            case_ = {'dispatcher': draw(st.sampled_from(['sync', 'sync', 'async'])), 'validator': validator, 'flavour': flavour, 'ctx': ctx,
+                     'excluded': excluded, 'coerce': draw(s_bool), 'params': params, 'top': top, 'args': args}
+            if flavour == 'func' and draw(st.integers(0, 2)) == 0:
+                # a second function with the SAME python name (another module's 'meth') sharing the validator instance, served first
+                sib = [{'name': q['name'], 'kind': q['kind'], **({'type': draw(s_tname)} if validator == 'pydantic' else {'schema': draw(s_schema)})}
+                       for q in params[:draw(st.integers(1, 3))]]
+                case_['sibling'] = sib
+            return case_
         return case()
 
     def corpus(self):
@@ -324,6 +330,21 @@ class C14(Check):
             fn = validator.validate(ns['meth'], **vargs) if vargs else validator.validate(ns['meth'])
             reg = pjrpc.server.MethodRegistry()
             reg.add(fn, 'meth', context='ctx' if spec['ctx'] else None)
+            if spec.get('sibling'):
+                ns2: Dict[str, Any] = {'_body': _body, 'NOCTX': hm.NOCTX}
+                sparts = []
+                for i, p in enumerate(spec['sibling']):
+                    src2 = p['name']
+                    if spec['validator'] == 'pydantic' and TYPES[p['type']] is not None:
+                        ns2[f'T{i}'] = TYPES[p['type']]
+                        src2 += f': T{i}'
+                    sparts.append(src2 + ' = None')
+                exec(f"{a}def meth({', '.join(sparts)}):\n    return 'sibling'\n", ns2)
+                if spec['validator'] == 'pydantic':
+                    sfn = validator.validate(ns2['meth'])
+                else:
+                    sfn = validator.validate(ns2['meth'], schema={'type': 'object', 'properties': {p['name']: SCHEMAS[p['schema']] for p in spec['sibling']}})
+                reg.add(sfn, 'sibling')
         d = pjrpc.server.AsyncDispatcher() if is_async else pjrpc.server.Dispatcher()
         d.add_methods(reg)
         return d
@@ -381,10 +402,13 @@ class C14(Check):
         text = json.dumps(req)
         sig = [(p['name'], p['kind'], p.get('type', p.get('schema')), 'default' in p) for p in spec['params']]
         where = (f"validator={spec['validator']} coerce={spec['coerce']} flavour={spec['flavour']} ctx={spec['ctx']} excluded={spec['excluded']} "
-                 f"sig={sig} top={spec['top']} request={text[:300]}")
+                 f"sig={sig} top={spec['top']} sibling={spec.get('sibling')} request={text[:300]}")
         verdict, expected = self._expect(spec)
         discs: List[Disc] = []
         try:
+            if spec.get('sibling'):
+                hm.run_dispatch(spec['dispatcher'], d, json.dumps({'jsonrpc': '2.0', 'id': 0, 'method': 'sibling', 'params': {}}), sentinel)
+                del LOG[:]
             r = hm.run_dispatch(spec['dispatcher'], d, text, sentinel)
         except Exception as e:
             return Outcome([Disc(f"C14/dispatch-raised/{type(e).__name__}", f"{e!r} | {where}")], True, ['crash'])
@@ -426,6 +450,8 @@ class C14(Check):
             rawvals = pv if isinstance(pv, dict) else dict(zip([p['name'] for p in spec['params']], pv))
             if any(not jg.jeq(describe(rawvals.get(k)), v) for k, v in expected.items() if k in rawvals):
                 classes.append('converted')
+        if spec.get('sibling'):
+            classes.append('sibling-same-name-served-first')
         if verdict == 'validation' and any(p.get('type') == 'vmodel' for p in spec['params']):
             classes.append('type/vmodel-rejects')
         constrained = any((p.get('type') not in (None, 'any')) if spec['validator'] == 'pydantic' else bool(SCHEMAS[p['schema']]) for p in spec['params']) or bool(spec['top'])
